@@ -81,6 +81,13 @@ package server
 //@ ensures [C04] result == nil && old(pub.Qos) == 2 ==> client.$nout == old(client.$nout) || (client.$nout == old(client.$nout) + 1 && client.$lastOut.(type *packets.Pubrec) && client.$lastOut.(*packets.Pubrec).PacketID == old(pub.PacketID))
 //@ ensures [C04] result == nil && old(pub.Qos) == 2 && client.$nout == old(client.$nout) + 1 && client.$lastOut.(*packets.Pubrec).Code < 128 ==> U.$has[old(pub.PacketID)]
 //@ ensures [C04] result == nil && old(pub.Qos) == 2 && client.$nout == old(client.$nout) + 1 && client.$lastOut.(*packets.Pubrec).Code >= 128 ==> !U.$has[old(pub.PacketID)]
-//@ ensures [C07] result == nil && !old(pub.Retain) ==> R.$ops == old(R.$ops)
+//@ ensures [C07] result == nil && !old(pub.Retain) && old(client.server.hooks.OnMsgArrived) == nil ==> R.$ops == old(R.$ops)
+//@ ensures [C07] client.$delivered == old(client.$delivered) ==> R.$ops == old(R.$ops)
+//@ call client.deliverMessage#1 assert [C07 C14] !msg.Retained ==> R.$ops == old(R.$ops)
+//@ call client.deliverMessage#1 assert [C07 C14] msg.Retained ==> R.$ops == old(R.$ops) + 1
+//@ call client.deliverMessage#1 assert [C07 C14] msg.Retained && len(msg.Payload) == 0 ==> R.$msg[msg.Topic] == nil
+//@ call client.deliverMessage#1 assert [C07 C14] msg.Retained && len(msg.Payload) != 0 ==> R.$msg[msg.Topic] != nil && R.$msg[msg.Topic] != msg && R.$msg[msg.Topic].Topic == msg.Topic && R.$msg[msg.Topic].QoS == msg.QoS && len(R.$msg[msg.Topic].Payload) == len(msg.Payload)
+//@ call client.deliverMessage#1 assert [C14] old(client.server.hooks.OnMsgArrived) != nil ==> msg == H.$vMsg && H.$vErr == nil && H.$arrived == old(H.$arrived) + 1
+//@ call client.deliverMessage#1 assert [C01] old(client.server.hooks.OnMsgArrived) == nil ==> msg.Topic == (hasAlias && old(len(pub.TopicName)) == 0 ? string(old(client.aliasMapper[int(alias)])) : string(old(pub.TopicName))) && msg.QoS == old(pub.Qos) && msg.Retained == old(pub.Retain) && msg.Payload == old(pub.Payload) && srcClientID == old(client.opts.ClientID)
 
 //@ func defaultIterateOptions inline
